@@ -905,6 +905,12 @@ where
                     )),
                     collector,
                 );
+                // Take the write lock _before_ `x` becomes visible in the `next` list. Iterators
+                // (and `transfer`/`clear`) read the list while `get` reads the tree, and until `x`
+                // is linked into the tree below the two disagree: an iterator would yield a key
+                // that a later `get` does not find. With the lock held every reader walks the
+                // list, and the lock is released only once `x` is in the tree as well.
+                self.lock_root(guard, collector);
                 self.first.store(x, Ordering::SeqCst);
                 if !first.is_null() {
                     unsafe { TreeNode::get_tree_node(first) }
@@ -932,7 +938,6 @@ where
                         .red
                         .store(true, Ordering::SeqCst);
                 } else {
-                    self.lock_root(guard, collector);
                     self.root.store(
                         TreeNode::balance_insertion(
                             self.root.load(Ordering::Relaxed, guard),
@@ -941,8 +946,8 @@ where
                         ),
                         Ordering::Relaxed,
                     );
-                    self.unlock_root();
                 }
+                self.unlock_root();
                 break;
             }
         }
